@@ -63,3 +63,12 @@ func register(prop string, f func(thorough bool) []Scenario) {
 	}
 	scenarioTable[prop] = f
 }
+
+// RegisterWorld lets other packages add world kinds.
+func RegisterWorld(kind string, f func(json.RawMessage) mc.Factory) { extraWorlds[kind] = f }
+
+// RegisterScenarios lets other packages add the scenario table of a property.
+func RegisterScenarios(prop string, f func(thorough bool) []Scenario) { register(prop, f) }
+
+// Mk builds a scenario from a parameter struct.
+func Mk(world, id string, params interface{}) Scenario { return mk(world, id, params) }
